@@ -384,7 +384,12 @@ func (r *UnifiedMemoryModelRegistry) removeEndpointFromUnifiedLocked(endpointURL
 		aliases := make([]domain.AliasEntry, len(model.Aliases))
 		copy(aliases, model.Aliases)
 
-		if model.RemoveEndpoint(endpointURL) {
+		// a listing may name a model twice (same name, different digest): drop every entry
+		removed := false
+		for model.RemoveEndpoint(endpointURL) {
+			removed = true
+		}
+		if removed {
 			// If no endpoints left, remove the unified model and its cached sets
 			if !model.IsAvailable() {
 				r.globalUnified.Delete(id)
